@@ -357,6 +357,11 @@ HOSTILE = {
 }
 
 
+CODEC_NAMES = ["undefined", "punycode", "idna", "hex", "hex_codec", "base64", "zlib", "bz2", "rot13", "quopri", "uu", "unicode_escape", "raw_unicode_escape", "utf-16", "utf-32", "utf-7",
+               "utf-8-sig", "cp037", "mbcs", "oem", "nope", "", " ", "utf-8\x00", "\x00", "latin-1", "ascii", "charmap", "palmos", "big5", "shift_jis", "iso2022_jp", "hz", "unicode_internal", "string_escape",
+               "a" * 300, "utf_8;x", "\xe9"]
+
+
 def mutate(draw, s: str) -> str:
     kind = draw(st.integers(0, 7))
     if not s:
@@ -394,6 +399,12 @@ _queries = st.one_of(
 
 def _bodies(draw, ctype: str):
     kind = draw(st.integers(0, 9))
+    if "multipart" in ctype and draw(st.integers(0, 2)) > 0:
+        kind = draw(st.sampled_from([3, 3, 4]))
+    elif "urlencoded" in ctype and draw(st.integers(0, 2)) > 0:
+        kind = 2
+    elif "json" in ctype and draw(st.integers(0, 2)) > 0:
+        kind = draw(st.sampled_from([0, 5, 7]))
     if kind <= 1:
         raw = json.dumps(draw(gen.json_values), ensure_ascii=draw(st.booleans())).encode("utf-8")
     elif kind == 2:
@@ -451,6 +462,13 @@ def request_case(draw, for_apps=False):
             v = v.encode("utf-8").decode("latin-1")
         headers.append([n, v.strip(" \t")])
         labels.append(f"hdr={n}")
+    # the charset parameter is client-controlled for all three body kinds: combine every media type with odd codec names
+    if draw(st.integers(0, 2)) == 0:
+        media = draw(st.sampled_from(["application/json", "application/x-www-form-urlencoded", 'multipart/form-data; boundary="b"', "multipart/form-data; boundary=b"]))
+        cs = draw(st.sampled_from(CODEC_NAMES))
+        headers = [h for h in headers if h[0] != "Content-Type"] + [["Content-Type", f"{media}; charset={cs}"]]
+        labels.append("odd-charset")
+        hostile = True
     path = draw(_paths)
     query = draw(_queries)
     ctype = next((v for k, v in headers if k == "Content-Type"), "")
@@ -482,7 +500,7 @@ def parser_case(draw):
             case["text"] = "bytes=" + text
     if kind == "multipart":
         case["boundary"] = draw(st.sampled_from(["b", "", "-", "\xff", "a b", "(", "[", "\\", "*", "." * 80]))
-        case["charset"] = draw(st.sampled_from(["utf-8", "latin-1", "nope", "utf-16", "idna", "hex", ""]))
+        case["charset"] = draw(st.sampled_from(["utf-8", "latin-1"] + CODEC_NAMES))
         case["chunk"] = draw(st.sampled_from([1, 7, 1000]))
         if draw(st.booleans()):
             case["text"] = b"".join(_bodies(draw, "")).decode("latin-1")
